@@ -421,17 +421,32 @@ func determStream(r *Run) {
 		tmpls := []string{"{% for kv in m %}{{ kv }};{% endfor %}", "{% for kv in m %}{{ kv[1] }}{% endfor %}", "{{ m | join: '' }}", "{{ m | first }}{{ m | last }}", "{% tablerow kv in m cols:3 %}{{ kv[1] }}{% endtablerow %}",
 			"{{ m | sort | join: ',' }}", "{{ m | reverse | join: ',' }}", "{% for kv in m reversed limit:3 offset:1 %}{{ kv[0] }};{% endfor %}", "{{ m | uniq | size }}{{ m | map: 'x' | size }}",
 			"{{ m | json }}", "{{ m | inspect }}|{{ m | type }}", "{% for kv in m %}{{ kv | json }}{% endfor %}{{ m | first | inspect }}"}
-		for _, m := range maps {
-			for _, src := range tmpls {
-				if !r.Mine() {
-					continue
+		// Every (map, template) pair is sent with the entries in the codec's canonical order and again with the
+		// entries of every map (nested ones included) in pseudo-random orders: three for the two mixed-key maps, one
+		// for the others. The Go maps are the same; the model, which gets the entries in the order of the case
+		// line, must sort them where the code calls SortedMapKeys to give the same answer.
+		for mi, m := range maps {
+			for ti, src := range tmpls {
+				variants := 2
+				if mi < 2 {
+					variants = 4
 				}
-				env := map[string]*V{"m": m}
-				cl := "determ " + engineCfg{}.Enc() + " " + hexField(src) + " " + EncEnv(env)
-				res := determCase(r, engineCfg{}, src, env, cl, g, false)
-				r.Count("fixed-family")
-				r.Nontrivial(cl)
-				r.Emit(cl, res)
+				for k := 0; k < variants; k++ {
+					if !r.Mine() {
+						continue
+					}
+					mv := m
+					if k > 0 {
+						mv = m.Shuffled(NewRNG(r.Seed, fmt.Sprint("determ/fixed/shuffle/", mi, "/", ti, "/", k)))
+						r.Count("fixed-family-shuffled")
+					}
+					env := map[string]*V{"m": mv}
+					cl := "determ " + engineCfg{}.Enc() + " " + hexField(src) + " " + EncEnv(env)
+					res := determCase(r, engineCfg{}, src, env, cl, g, false)
+					r.Count("fixed-family")
+					r.Nontrivial(cl)
+					r.Emit(cl, res)
+				}
 			}
 		}
 	}
@@ -454,6 +469,14 @@ func determStream(r *Run) {
 		}
 		env := GenEnv(g, o, sc)
 		src, info := GenTemplateFor(g, o, sc)
+		// half of the environments are sent with the entries of every map in a pseudo-random order (a private RNG
+		// of the case, so that the templates of a seed stay what they were and the case replays)
+		if gs := NewRNG(r.Seed, fmt.Sprint("determ/shuffle/", i)); gs.Chance(50) {
+			env = ShuffledEnv(env, gs)
+			r.Count("entries=shuffled")
+		} else {
+			r.Count("entries=canonical")
+		}
 		cl := "determ " + cfg.Enc() + " " + hexField(src) + " " + EncEnv(env)
 		res := determCase(r, cfg, src, env, cl, g, false)
 		r.Count("gen-mode=" + info.Mode)
